@@ -385,6 +385,17 @@ class FuncAnalysis:
             return True
         return False
 
+    def tensor_valued(self, e):
+        """an expression that can only be a tensor: matrix product, torch.* call, or one of the package's batched linear-algebra helpers"""
+        for n in ast.walk(e):
+            if isinstance(n, ast.BinOp) and isinstance(n.op, ast.MatMult):
+                return True
+            if isinstance(n, ast.Call):
+                d = dotted(n.func) or ''
+                if d.startswith('torch.') or d in ('bmv', 'bvv', 'bvmv'):
+                    return True
+        return False
+
     def tensorish(self, name):
         if name in self.tensorish_cache:
             return self.tensorish_cache[name]
@@ -430,7 +441,7 @@ class FuncAnalysis:
             self.stats['augassign_sites'] = self.stats.get('augassign_sites', 0) + 1
             t = st.target
             if isinstance(t, ast.Name):
-                if self.tensorish(t.id):
+                if self.tensorish(t.id) or (any(o[0] == 'p' for o in env.get(t.id, frozenset())) and self.tensor_valued(st.value)):
                     self.mutate(env.get(t.id, frozenset()), st, 'augmented assignment `%s` on a tensor is in place' % src(st)[:60])
                 else:
                     if any(o[0] == 'p' for o in env.get(t.id, frozenset())):
